@@ -19,6 +19,7 @@ import (
 
 	"github.com/massnetorg/mass-core/poc/pocutil"
 	"github.com/massnetorg/mass-core/pocec"
+	"massnet.org/mass/poc/engine/massdb"
 	massdb_v1 "massnet.org/mass/poc/engine/massdb/massdb.v1"
 	"verifharness/hx"
 )
@@ -29,9 +30,13 @@ type snap struct {
 	pass  string
 	start uint64
 	idx   int // index of the point in the run
+	nA    int // windows of pass A / pass B whose data and checkpoint were on disk when the snapshot was taken
+	nB    int
 }
 
 type G struct {
+	bytesA []int // cache BYTE length of every window of the last plotRun, pass A / pass B
+	bytesB []int
 	nbuf  int
 	h     *hx.H
 	focus string
@@ -205,6 +210,8 @@ func (g *G) plotRun(dir string, pk *pocec.PublicKey, bl int, wa, wb []int, snaps
 		pass = "B"
 	}
 	ia, ib := 0, 0
+	g.bytesA, g.bytesB = nil, nil
+	nSyncA, nSyncB := 0, 0
 	massdb_v1.VerifCacheSize = func(required uint64) (uint64, bool) {
 		mu.Lock()
 		defer mu.Unlock()
@@ -217,13 +224,18 @@ func (g *G) plotRun(dir string, pk *pocec.PublicKey, bl int, wa, wb []int, snaps
 			ib++
 		}
 		forced := uint64(recs) * rs
+		if rs > 1 {
+			forced += uint64(g.h.Rng.Intn(int(rs))) // a cache that is not a whole number of records (same window, more spill)
+		}
 		if forced > required { // the real code never holds more than what remains
 			forced = required
 		}
 		if pass == "A" {
 			usedA = append(usedA, int(forced/rs))
+			g.bytesA = append(g.bytesA, int(forced))
 		} else {
 			usedB = append(usedB, int(forced/rs))
+			g.bytesB = append(g.bytesB, int(forced))
 		}
 		return forced, true
 	}
@@ -254,13 +266,21 @@ func (g *G) plotRun(dir string, pk *pocec.PublicKey, bl int, wa, wb []int, snaps
 		if name == "data-written" {
 			windows++
 		}
+		if name == "checkpoint-synced" {
+			if ps == "A" {
+				nSyncA++
+			} else {
+				nSyncB++
+			}
+		}
 		idx := npoint
 		npoint++
+		na, nb := nSyncA, nSyncB
 		mu.Unlock()
-		if snapshots && name != "final-checkpoint" {
+		if (snapshots && name != "final-checkpoint") || (g.focus != "C10" && name == "checkpoint-synced" && (na+nb <= 2 || (na+nb)%5 == 0)) {
 			d := filepath.Join(g.root, fmt.Sprintf("snap%d_%d", g.nrun, idx))
 			copyDir(dir, d)
-			snaps = append(snaps, snap{d, name, ps, start, idx})
+			snaps = append(snaps, snap{d, name, ps, start, idx, na, nb})
 		}
 		if idx == stopAt {
 			stop()
@@ -291,6 +311,8 @@ func (g *G) plotRun(dir string, pk *pocec.PublicKey, bl int, wa, wb []int, snaps
 	stopOnce.Do(func() {}) // no further stop requests
 	// what the open object reports now (in memory) must not run ahead of what its files hold
 	memPlotted := mdb.Ready()
+	// what the keeper asks after a plot ends (space_plotter.go: `ws.Progress() < 100`; NewWorkSpace: `mdb.Progress()`)
+	_, memPlotted2, memProgress := mdb.Progress()
 	_, memCpB := mdb.HashMapB.Progress()
 	memCpA, hasMemA := uint64(0), false
 	if mdb.HashMapA != nil {
@@ -300,6 +322,9 @@ func (g *G) plotRun(dir string, pk *pocec.PublicKey, bl int, wa, wb []int, snaps
 	defer func() {
 		st := readState(dir, pk, bl)
 		g.h.Res.OracleEvals++
+		if (memPlotted2 || memProgress >= 100) && !st.plotted {
+			g.h.Fail("C07:reports-complete-but-table-incomplete", fmt.Sprintf("after Plot() returned (%s) the open space reports plotted=%v progress=%v, but its file holds checkpoint %d of %d (and map A present: %v)", outcome, memPlotted2, memProgress, st.cpB, (uint64(1)<<uint(bl))/2, st.hasA))
+		}
 		if memPlotted && !st.plotted {
 			g.h.Fail("C10:reports-plotted-ahead-of-file", fmt.Sprintf("after Plot() returned (%s) the open space reports plotted, its file does not (checkpoint B in memory %d, on disk %d)", outcome, memCpB, st.cpB))
 		}
@@ -452,8 +477,40 @@ func main() {
 		wa, wb := g.sizes(n, false), g.sizes(n, true)
 		dir := g.newDir(pk, bl)
 		empty := readState(dir, pk, bl)
+		// byte level: the pristine image, its header blocks, mutated headers through the loader
+		byteLevel := bl <= 9 || (h.Tier == "thorough" && bl <= 10)
+		freshDir := dir + "_fresh"
+		copyDir(dir, freshDir)
+		if round < 6 || round%4 == 0 {
+			g.headerLines(dir, pk, bl)
+			g.decodeLines(dir, pk, bl)
+		}
 		snaps, outcome, usedA, usedB := g.plotRun(dir, pk, bl, wa, wb, *focus == "C10", -1, 60*time.Second)
 		snaps0 := append([]snap(nil), snaps...)
+		bytesA, bytesB := append([]int(nil), g.bytesA...), append([]int(nil), g.bytesB...)
+		if byteLevel && outcome == "returned" {
+			g.bytesLine("uninterrupted plot, "+fmt.Sprintf("bl=%d cache bytes A=%v B=%v", bl, bytesA, bytesB), bl, r, bytesA, bytesB, freshDir, dir, pk, "run")
+			nsync := 0
+			for _, s := range snaps {
+				if s.point != "checkpoint-synced" || s.nA > len(bytesA) || s.nB > len(bytesB) {
+					continue
+				}
+				nsync++
+				if *focus == "C10" && nsync > 3 && nsync%4 != 0 {
+					continue
+				}
+				g.bytesLine(fmt.Sprintf("image after %d windows of pass A and %d of pass B, bl=%d cache bytes A=%v B=%v", s.nA, s.nB, bl, bytesA, bytesB), bl, r, bytesA[:s.nA], bytesB[:s.nB], freshDir, s.dir, pk, "image")
+				if nsync <= 2 {
+					g.headerLines(s.dir, pk, bl)
+				}
+			}
+		}
+		if *focus != "C10" {
+			for _, s := range snaps {
+				os.RemoveAll(s.dir)
+			}
+		}
+		os.RemoveAll(freshDir)
 		desc := fmt.Sprintf("bl=%d key=%x.. cacheA=%v cacheB=%v (windows A:%d B:%d)", bl, pk.SerializeCompressed()[:4], wa, wb, len(usedA), len(usedB))
 		replay := []string{"# " + desc}
 		final := readState(dir, pk, bl)
@@ -468,13 +525,42 @@ func main() {
 			h.Sample("plot " + desc)
 		}
 		h.Res.Extra["windows"] = toInt(h.Res.Extra["windows"]) + len(usedA) + len(usedB)
+		// ---- C07: a plot that was stopped once and then resumed completes to the same table; a stopped plot never
+		// counts as complete
+		if *focus != "C10" {
+			d := g.newDir(pk, bl)
+			stopAt := h.Rng.Intn(1 + 2*(len(usedA)+len(usedB)))
+			_, o1, _, _ := g.plotRun(d, pk, bl, wa, wb, false, stopAt, 30*time.Second)
+			mid := readState(d, pk, bl)
+			wa2, wb2 := g.sizes(n, false), g.sizes(n, true)
+			_, o2, _, _ := g.plotRun(d, pk, bl, wa2, wb2, false, -1, 30*time.Second)
+			after := readState(d, pk, bl)
+			d2 := fmt.Sprintf("%s; stopped at point %d (%s), then resumed with cacheA=%v cacheB=%v (%s)", desc, stopAt, o1, wa2, wb2, o2)
+			h.Emit(g.modelLine(bl, r, wa2, wb2, mid), outLine(after, bl))
+			if o2 != "returned" {
+				h.FailWith("C07:plot-did-not-complete", d2, []string{"# " + d2})
+			} else {
+				g.checkFinal("stopped and resumed plot "+d2, after, r, pk, bl, []string{"# " + d2})
+			}
+			os.RemoveAll(d)
+		}
 		// ---- C10: every snapshot (crash image at a named point) is resumed with other window sizes
 		if *focus == "C10" {
 			for si, s := range snaps {
 				wa2, wb2 := g.sizes(n, false), g.sizes(n, true)
 				init := readState(s.dir, pk, bl)
+				withBytes := byteLevel && (bl == 8 || si%3 == 0)
+				if withBytes {
+					copyDir(s.dir, s.dir+"_from")
+				}
 				_, out2, _, _ := g.plotRun(s.dir, pk, bl, wa2, wb2, false, -1, 20*time.Second)
 				after := readState(s.dir, pk, bl)
+				if withBytes {
+					if out2 == "returned" {
+						g.bytesLine(fmt.Sprintf("resume of the crash image at point %d (%s, pass %s), bl=%d cache bytes A=%v B=%v", si, s.point, s.pass, bl, g.bytesA, g.bytesB), bl, r, g.bytesA, g.bytesB, s.dir+"_from", s.dir, pk, "run")
+					}
+					os.RemoveAll(s.dir + "_from")
+				}
 				d2 := fmt.Sprintf("%s; crash image at point %d (%s, pass %s, window start %d); resumed with cacheA=%v cacheB=%v", desc, si, s.point, s.pass, s.start, wa2, wb2)
 				h.Emit(g.modelLine(bl, r, wa2, wb2, init), outLine(after, bl))
 				h.Res.OracleEvals++
@@ -515,6 +601,197 @@ func main() {
 		os.RemoveAll(dir)
 	}
 	h.Finish("real massdb.v1 plots at bit lengths 8-12, several public keys, forced cache sizes (1-8 windows per pass, odd/even/exact/oversized); C10: every named point of both passes is snapshotted and resumed with other sizes, plus graceful stops; distinct = distinct (line, output) pairs")
+}
+
+
+// ---- byte level (Model/PlotFile.lean): the two files as they are on disk
+
+type rawFile struct {
+	ok   bool
+	hdr  []byte // first 4096 bytes
+	data []byte // the rest
+}
+
+func readRawFile(path string) rawFile {
+	b, err := os.ReadFile(path)
+	if err != nil || len(b) < massdb_v1.LenMetaInfo {
+		return rawFile{}
+	}
+	return rawFile{true, b[:massdb_v1.LenMetaInfo], b[massdb_v1.LenMetaInfo:]}
+}
+
+func le64(b []byte) uint64 {
+	var v uint64
+	for i := 7; i >= 0; i-- {
+		v = v<<8 | uint64(b[i])
+	}
+	return v
+}
+
+// bytesLine: the model's byte-level run from the raw image `from` through the given cache byte lengths, and the
+// data regions the code left in `to`
+func (g *G) bytesLine(what string, bl int, r ref, ca, cb []int, from, to string, pk *pocec.PublicKey, end string) {
+	pa0, pb0 := paths(from, pk, bl)
+	pa1, pb1 := paths(to, pk, bl)
+	a0, b0, a1, b1 := readRawFile(pa0), readRawFile(pb0), readRawFile(pa1), readRawFile(pb1)
+	if !b0.ok || !b1.ok {
+		return
+	}
+	n := 1 << uint(bl)
+	rs := pocutil.RecordSize(bl)
+	g.h.Res.OracleEvals++
+	// on Linux a fresh map file is just its header block: the data region grows as windows are flushed, and never
+	// beyond the table (bytes that were never written read as zero)
+	if len(b1.data) > 2*n*rs || len(a1.data) > n*rs {
+		g.h.FailWith("C07:file-size", fmt.Sprintf("%s: data region of map B is %d bytes (table: %d), of map A %d (table: %d)", what, len(b1.data), 2*n*rs, len(a1.data), n*rs), []string{"# " + what})
+		return
+	}
+	pad := func(f *rawFile, size int) {
+		if f.ok && len(f.data) < size {
+			f.data = append(append([]byte(nil), f.data...), make([]byte, size-len(f.data))...)
+		}
+	}
+	pad(&a0, n*rs)
+	pad(&a1, n*rs)
+	pad(&b0, 2*n*rs)
+	pad(&b1, 2*n*rs)
+	a0s, cpA0 := "-", uint64(n)
+	if a0.ok {
+		a0s, cpA0 = hx.Hex(a0.data), le64(a0.hdr[massdb_v1.PosCheckpoint:])
+	}
+	a1s, cpA1 := "-", uint64(n)
+	if a0.ok { // the model prints map A whenever it was given one; a completed plot removes the file
+		if a1.ok {
+			a1s, cpA1 = hx.Hex(a1.data), le64(a1.hdr[massdb_v1.PosCheckpoint:])
+		} else {
+			a1s = "removed"
+		}
+	}
+	op := fmt.Sprintf("bytes bl=%d P=%s FB=%s ca=%s cb=%s A0=%s cpA0=%d B0=%s cpB0=%d end=%s", bl, joinU(r.p), strings.Join(r.fb, ";"), dash(joinI(ca)), dash(joinI(cb)),
+		a0s, cpA0, hx.Hex(b0.data), le64(b0.hdr[massdb_v1.PosCheckpoint:]), end)
+	out := fmt.Sprintf("cpA=%d cpB=%d A=%s B=%s", cpA1, le64(b1.hdr[massdb_v1.PosCheckpoint:]), a1s, hx.Hex(b1.data))
+	g.h.Emit(op, out)
+	g.h.Res.Extra["byte_level_runs"] = toInt(g.h.Res.Extra["byte_level_runs"]) + 1
+}
+
+func dash(s string) string {
+	if s == "" {
+		return "-"
+	}
+	return s
+}
+
+// headerLines: the header blocks of the two files of dir against the model's encoder
+func (g *G) headerLines(dir string, pk *pocec.PublicKey, bl int) {
+	pa, pb := paths(dir, pk, bl)
+	pkh := pocutil.PubKeyHash(pk)
+	for i, p := range []string{pa, pb} {
+		f := readRawFile(p)
+		if !f.ok {
+			continue
+		}
+		typ := []int{int(massdb_v1.MapTypeHashMapA), int(massdb_v1.MapTypeHashMapB)}[i]
+		op := fmt.Sprintf("header code=%s ver=1 pk=%x pkhash=%x bl=%d typ=%d cp=%d", hx.Hex(massdb.DBFileCode), pk.SerializeCompressed(), pkh[:], bl, typ, le64(f.hdr[massdb_v1.PosCheckpoint:]))
+		g.h.Emit(op, hx.Hex(f.hdr[:massdb_v1.PosAlignHolder]))
+		g.h.Res.OracleEvals++
+		for _, b := range f.hdr[massdb_v1.PosAlignHolder:] {
+			if b != 0 {
+				g.h.FailWith("C11:header-padding-written", "bytes between the header fields and the data region are not zero in "+filepath.Base(p), []string{"# " + op})
+				break
+			}
+		}
+	}
+}
+
+// decodeLines: mutated header blocks through the package's loader and the model's decoder
+func (g *G) decodeLines(dir string, pk *pocec.PublicKey, bl int) {
+	_, pb := paths(dir, pk, bl)
+	f := readRawFile(pb)
+	if !f.ok {
+		return
+	}
+	r := g.h.Rng
+	for k := 0; k < 14; k++ {
+		hdr := append([]byte(nil), f.hdr...)
+		switch k {
+		case 0: // untouched
+		case 1:
+			hdr[r.Intn(massdb_v1.LenFileCode)] ^= byte(1 + r.Intn(255))
+		case 2:
+			hdr[massdb_v1.PosVersion+r.Intn(8)] ^= byte(1 + r.Intn(255))
+		case 3:
+			hdr[massdb_v1.PosBitLength] = byte(r.Intn(256))
+		case 4:
+			hdr[massdb_v1.PosType] = byte(r.Intn(5))
+		case 5:
+			hdr[massdb_v1.PosType] = byte(r.Intn(256))
+		case 6:
+			for i := 0; i < 8; i++ {
+				hdr[massdb_v1.PosCheckpoint+i] = byte(r.Intn(256))
+			}
+		case 7:
+			hdr[massdb_v1.PosPubKeyHash+r.Intn(32)] ^= byte(1 + r.Intn(255))
+		case 8:
+			hdr[massdb_v1.PosPubKey+1+r.Intn(32)] ^= byte(1 + r.Intn(255)) // another x coordinate: a key or not a point
+		case 9:
+			hdr[massdb_v1.PosPubKey] = byte(r.Intn(8)) // the format byte
+		case 10: // another valid key with its own hash
+			pk2 := key(7 + r.Intn(5))
+			h2 := pocutil.PubKeyHash(pk2)
+			copy(hdr[massdb_v1.PosPubKey:], pk2.SerializeCompressed())
+			copy(hdr[massdb_v1.PosPubKeyHash:], h2[:])
+		case 11: // another valid key, old hash
+			copy(hdr[massdb_v1.PosPubKey:], key(7+r.Intn(5)).SerializeCompressed())
+		case 12:
+			hdr[massdb_v1.PosType] = byte(massdb_v1.MapTypeHashMapA)
+			hdr[massdb_v1.PosCheckpoint+r.Intn(3)] ^= byte(1 + r.Intn(255))
+		default: // several fields at once: the first failing check names the error
+			hdr[r.Intn(massdb_v1.LenFileCode)] ^= byte(r.Intn(2))
+			hdr[massdb_v1.PosVersion] ^= byte(r.Intn(2))
+			hdr[massdb_v1.PosType] = byte(r.Intn(4))
+			hdr[massdb_v1.PosPubKeyHash] ^= byte(r.Intn(2))
+		}
+		tmp := filepath.Join(g.root, "hdr.massdb")
+		os.WriteFile(tmp, hdr, 0o644)
+		parsed, perr := pocec.ParsePubKey(hdr[massdb_v1.PosPubKey:massdb_v1.PosPubKey+massdb_v1.LenPubKey], pocec.S256())
+		parses, hash := 0, "-"
+		if perr == nil {
+			h := pocutil.PubKeyHash(parsed)
+			parses, hash = 1, hx.Hex(h[:])
+		}
+		op := fmt.Sprintf("decode code=%s ver=1 ta=%d tb=%d hdr=%s parses=%d hash=%s", hx.Hex(massdb.DBFileCode), int(massdb_v1.MapTypeHashMapA), int(massdb_v1.MapTypeHashMapB),
+			hx.Hex(hdr[:massdb_v1.PosAlignHolder]), parses, hash)
+		var out string
+		hmi, err := massdb_v1.LoadHashMap(tmp)
+		switch {
+		case err == massdb_v1.ErrDBWrongFileCode:
+			out = "err fileCode"
+		case err == massdb_v1.ErrDBWrongVersion:
+			out = "err version"
+		case err == massdb_v1.ErrDBWrongPubKeyHash:
+			out = "err pubKeyHash"
+		case err == massdb_v1.ErrDBWrongMapType:
+			out = "err mapType"
+		case err != nil && perr != nil:
+			out = "err pubKey"
+		case err != nil:
+			out = "err other:" + strings.ReplaceAll(err.Error(), " ", "_")
+		default:
+			switch hm := hmi.(type) {
+			case *massdb_v1.HashMapA:
+				out = fmt.Sprintf("ok bl=%d typ=%d cp=%d pk=%x", hm.BitLength(), int(massdb_v1.MapTypeHashMapA), uint64(hm.Checkpoint()), hm.PubKey().SerializeCompressed())
+				hm.Close()
+			case *massdb_v1.HashMapB:
+				_, cp := hm.Progress()
+				hm.Close()
+				if mdb, err := massdb_v1.NewMassDBV1ForTest(tmp); err == nil {
+					out = fmt.Sprintf("ok bl=%d typ=%d cp=%d pk=%x", mdb.BitLength(), int(massdb_v1.MapTypeHashMapB), uint64(cp), mdb.PubKey().SerializeCompressed())
+					mdb.HashMapB.Close()
+				}
+			}
+		}
+		g.h.Emit(op, out)
+	}
 }
 
 func (g *G) checkResume(desc, outcome string, init, after fileState, r ref, bl int) {
